@@ -15,11 +15,15 @@ LEVEL_TEXT = (
 LEVEL_NOTE = (
     "Trusted: Lean kernel + standard axioms; harness wrapper and driver. The inside of a pass (apply_fees, compiler ops, "
     "reduce, selection, compile) is covered by the other properties' models and correspondences; here it is abstracted "
-    "by PassOK, checked on every recorded pass."
+    "by PassOK, checked on every recorded pass; its first half (the body carries the fee the pass was given) is also "
+    "proved over the models of apply_fees, reduce and compile (C05_fee_chain, C05_fee_written); the second half (the "
+    "reported fee is the linear fee of the payload's size) is a statement about the bytes pallas writes and is checked "
+    "on every recorded pass."
 )
 PROP = "C05"
-TARGETS = ["Tx3Proofs.C05"]
-THEOREMS = ["Tx3.resolveLoop_fixed_point", "Tx3.C05_fixed_point", "Tx3.resolveLoop_stable", "Tx3.C05_stable"]
+TARGETS = ["Tx3Proofs.C05", "Tx3Proofs.C05Fee"]
+THEOREMS = ["Tx3.resolveLoop_fixed_point", "Tx3.C05_fixed_point", "Tx3.resolveLoop_stable", "Tx3.C05_stable",
+            "Tx3.C05_fee_written", "Tx3.C05_fee_chain"]
 RULE = (
     "cases = (template, pparams, store, rounds): 5 template shapes using `fees` in outputs and/or min_amount, with and "
     "without min_utxo, 0-2 extra outputs, lowered from source; min_fee_coefficient in {0,1,44,1000}, constant in "
